@@ -34,6 +34,27 @@ def _m(text, ref, note, tech):
 
 
 CHECKS = {
+    "C03": _m("Bounded model checking of the real variable store (scope stack with its last-looked-up-slot cache) in lock-step "
+              "with a cache-free reference written from the scoping rules, over every operation sequence of length 2-3 (4 "
+              "thorough); plus the operator precedence table against the specification.",
+              "DESIGN.md section 4, C03",
+              "Only the variable store and the precedence table are decided; control flow, argument binding, mixins and "
+              "operator evaluation are outside. Trusted: Kani/CBMC, the interner model (hook), the 30-line reference.",
+              "bounded model checking (Kani/CBMC) of Scopes/Environment against a reference state machine"),
+    "C07": _m("Bounded model checking with bit-precise doubles: fuzzy equality is reflexive, symmetric, never true beyond 1e-11, "
+              "true within 4e-12 of a bucket centre; fuzzy <, ==, > form a trichotomy; fuzzy_as_int is total and exact to the "
+              "tolerance; is_zero/positive/negative partition; min/max/clamp are total incl. NaN - for every double in the windows.",
+              "DESIGN.md section 4, C07",
+              "fuzzy_round, modulo and number printing are outside (CBMC mis-models f64 `%`; float formatting does not finish). "
+              "Trusted: Kani/CBMC float encoding, the epsilon stubs (re-validated natively each run).",
+              "bounded model checking (Kani/CBMC, IEEE-754 bit-blasting) of the fuzzy comparison kernels over value windows"),
+    "C09": _m("Bounded model checking over a universe of small values: the separate not_equals routine is the exact negation of "
+              "==, and == is reflexive and symmetric, for every pair of values of the stated shapes (numbers with convertible "
+              "units and fuzzy-equal magnitudes, strings, booleans, null, lists with every separator/bracket combination).",
+              "DESIGN.md section 4, C09",
+              "Maps, colours, arglists and transitivity are outside. Trusted: Kani/CBMC, the convert contract stub and the "
+              "epsilon stubs.",
+              "bounded model checking (Kani/CBMC) of Value::eq vs Value::not_equals"),
     "C13": _m("Bounded model checking of the two classification kernels of import handling: the plain-CSS import predicate "
               "agrees with the documented rule on every ASCII URL of 5-9 bytes, and the syntax chosen from a file extension is "
               "Sass/CSS exactly for .sass/.css in any letter case.",
